@@ -411,9 +411,9 @@ theorem coerce_norm (fuel : Nat) (env : Env) (o : WOpts) (t : Schema) (dv dv' nf
         · simp only [Except.ok.injEq] at hc; subst hc; simpa [Spec.normPrim] using hn
   · simp only [Except.ok.injEq] at hc; subst hc; exact hn
 
-theorem listIndex_nat {α} (xs : List α) (i : Nat) : Py.listIndex xs (i : Int) = xs[i]? := by
-  unfold Py.listIndex
-  have : (0:Int) ≤ (i : Int) := Int.natCast_nonneg i
+theorem listIndex_nat {α} (xs : List α) (i : Nat) : indexChecked xs (i : Int) = xs[i]? := by
+  unfold indexChecked
+  have : ¬ ((i : Int) < 0) := by omega
   simp [this]
 
 /-- **C01, main statement.** Whatever `write_data` emits for a datum whose normal form is defined is
